@@ -48,6 +48,12 @@ M = [
  ("M43-edifact-end-space", "src/encodation/edifact.rs", "Some(space) if space <= 2 && ascii_size <= space => {", "Some(space) if space <= 3 && ascii_size <= space => {", {"C02": "END-EDIFACT", "C01": "END-EDIFACT", "C18": "END-EDIFACT"}),
  ("M44-chien-range", "src/errorcode/decoding/mod.rs", "    for i in 0..=254 {", "    for i in 0..254 {", {"C03": "ROOT-COVER"}),
  ("M45-frac-width", "src/encodation/planner/frac.rs", "pub(super) type C = u32;", "pub(super) type C = u16;", {"C11": "INV"}),
+ ("M46-b256-dec-len2", "src/decodation/mod.rs", "250 * (ch1 - 249) + ch2", "250 * (ch1 - 250) + ch2", {"C04": "TAB-B256", "C01": "TAB-B256"}),
+ ("M47-b256-dec-pos", "src/decodation/mod.rs", "out.push(derandomize_255_state(ch, data.pos() - 1));", "out.push(derandomize_255_state(ch, data.pos()));", {"C04": "DEC-B256"}),
+ ("M48-b256-dec-loop-short", "src/decodation/mod.rs", "    for _ in 0..length {\n        if let Ok(ch) = data.eat() {\n            out.push(derandomize_255_state", "    for _ in 1..length {\n        if let Ok(ch) = data.eat() {\n            out.push(derandomize_255_state", {"C04": "DEC-B256"}),
+ ("M49-b256plan-written-le1", "src/encodation/planner/base256.rs", "let cost = if written == 0 {", "let cost = if written <= 1 {", {"C10": "COST-WRITE", "C18": "COST-WRITE"}),
+ ("M50-b256plan-no-booking", "src/encodation/planner/base256.rs", "            // for length byte\n            ctx.write(1);\n            1", "            // for length byte\n            1", {"C10": "COST-WRITE", "C18": "COST-WRITE"}),
+ ("M51-rhc-no-progress", "src/encodation/planner/shortest_path.rs", "        if uncomparable {\n            start += 1;", "        if uncomparable {\n            start += removed;", {"C11": "T-LOOPS-ENC"}),
  ("M24-switch-insert", "src/encodation/planner/generic.rs", "                    switches.push((rest_len, EncodationType::$enum));", "                    switches.insert(0, (rest_len, EncodationType::$enum));", {"C18": "PLAN-MONO"}),
 ]
 def main():
